@@ -2772,6 +2772,10 @@ public:
 
     locks_t &get_current_locks() { return map_.get().get_current_locks(); }
 
+    void bump_resize_counter() {
+      map_.get().resize_counter_.fetch_add(1, std::memory_order_release);
+    }
+
     // A reference to the map owned by the table
     std::reference_wrapper<cuckoohash_map> map_;
     // A manager for all the locks we took on the table.
@@ -2810,6 +2814,10 @@ public:
       is.read(reinterpret_cast<char *>(&mhp), sizeof(size_type));
       lt.minimum_load_factor(mlf);
       lt.maximum_hashpower(mhp);
+      // The bucket array (and possibly the hashpower and the locks array) was
+      // replaced: bump the resize_counter_ so that operations waiting for the
+      // locks re-compute their buckets, as every other resize does.
+      lt.bump_resize_counter();
       return is;
     }
   };
